@@ -183,6 +183,7 @@ engb_prop!(C12, "C12", ALL_FL, true, true, 48_000, 1_500_000,
 // single-threaded histories (Engine A) plus multi-threaded clone/drop interleavings (Engine B)
 
 #[derive(Clone, Debug, serde::Serialize, serde::Deserialize)]
+#[serde(untagged)]
 pub enum CaseC13 {
     A(CaseA),
     B(CaseB),
@@ -228,6 +229,114 @@ impl Prop for C13 {
         match c {
             CaseC13::A(c) => simplify_case_a(c).into_iter().map(CaseC13::A).collect(),
             CaseC13::B(c) => simplify_b(c).into_iter().map(CaseC13::B).collect(),
+        }
+    }
+}
+
+// ------------------------------------------------------------------------------------------ C08
+// single-threaded histories (Engine A) plus recycling between threads under a schedule (Engine B)
+
+#[derive(Clone, Debug, serde::Serialize, serde::Deserialize)]
+#[serde(untagged)]
+pub enum CaseC08 {
+    A(CaseA),
+    B(CaseB),
+}
+
+pub struct C08;
+impl Prop for C08 {
+    type Case = CaseC08;
+    const ID: &'static str = "C08";
+    const SHRINK_ITERS: u32 = 1200;
+    fn strategy(tier: Tier) -> BoxedStrategy<CaseC08> {
+        prop_oneof![
+            5 => <C08A as Prop>::strategy(tier).prop_map(CaseC08::A),
+            1 => case_b_strategy(tier, ALL_FL, false).prop_map(CaseC08::B),
+        ]
+        .boxed()
+    }
+    fn run(case: &CaseC08) -> CaseReport {
+        match case {
+            CaseC08::A(c) => <C08A as Prop>::run(c),
+            CaseC08::B(c) => {
+                let r = run_case_b(c, &OptsB { detect_races: false, owner: "C08" });
+                let mut classes: BTreeSet<&'static str> = r.classes.clone();
+                classes.insert("threaded-case");
+                crate::runner::bump("scheduled_steps", r.steps);
+                CaseReport { nontrivial: !r.inconclusive && r.owner_changes >= 1, classes, viol: r.viol }
+            }
+        }
+    }
+    fn cases(tier: Tier) -> u64 {
+        scale(tier, 320_000, 10_000_000)
+    }
+    fn rule() -> &'static str {
+        "5/6 of the cases: Engine A histories in which every owner fills its whole range with non-zero bytes right after allocation; releases via drop on top, drop not on top, explicit dealloc; rewind, discard_freelist, clear, file reopen; at the return of every alloc_bytes/alloc_bytes_owned every byte of the returned range is zero. 1/6 of the cases: Engine B programs (2-4 threads on one sync::Arena under a generated schedule, every owner writes a non-zero payload over its whole range) with the same all-zero test at every alloc_bytes return, so that ranges released by one thread and re-issued to another - through the cursor, a segment or a remainder, with a pre-emption anywhere in between - are covered. Non-trivial (A) = the returned range intersects bytes an earlier owner had set non-zero; (B) = a byte range changed owner thread"
+    }
+    fn assumptions() -> Vec<&'static str> {
+        let mut v = <C08A as Prop>::assumptions();
+        v.extend(B_ASSUME.iter().copied());
+        v
+    }
+    fn simplify(c: &CaseC08) -> Vec<CaseC08> {
+        match c {
+            CaseC08::A(c) => simplify_case_a(c).into_iter().map(CaseC08::A).collect(),
+            CaseC08::B(c) => simplify_b(c).into_iter().map(CaseC08::B).collect(),
+        }
+    }
+}
+
+// ------------------------------------------------------------------------------------------ C04
+// single-threaded boundary-size histories (Engine A) plus failing allocations under a schedule (Engine B)
+
+#[derive(Clone, Debug, serde::Serialize, serde::Deserialize)]
+#[serde(untagged)]
+pub enum CaseC04 {
+    A(CaseA),
+    B(CaseB),
+}
+
+pub struct C04;
+impl Prop for C04 {
+    type Case = CaseC04;
+    const ID: &'static str = "C04";
+    const PROFILES: &'static [&'static str] = &["checked", "release"];
+    const SHRINK_ITERS: u32 = 1200;
+    fn strategy(tier: Tier) -> BoxedStrategy<CaseC04> {
+        prop_oneof![
+            7 => <C04A as Prop>::strategy(tier).prop_map(CaseC04::A),
+            1 => case_b_strategy(tier, LIST_FL, false).prop_map(CaseC04::B),
+        ]
+        .boxed()
+    }
+    fn run(case: &CaseC04) -> CaseReport {
+        match case {
+            CaseC04::A(c) => <C04A as Prop>::run(c),
+            CaseC04::B(c) => {
+                let r = run_case_b(c, &OptsB { detect_races: false, owner: "C04" });
+                let mut classes: BTreeSet<&'static str> = r.classes.clone();
+                classes.insert("threaded-case");
+                crate::runner::bump("scheduled_steps", r.steps);
+                let nontrivial = !r.inconclusive && classes.contains("alloc-failed") && r.cas_failures >= 1;
+                CaseReport { nontrivial, classes, viol: r.viol }
+            }
+        }
+    }
+    fn cases(tier: Tier) -> u64 {
+        scale(tier, 320_000, 10_000_000)
+    }
+    fn rule() -> &'static str {
+        "7/8 of the cases: Engine A histories with boundary-dense huge sizes (u32::MAX-k, u32::MAX-allocated+-d, 2^31+-d, capacity+-d, remaining+-d, random u32) for bytes and extra, every type, on every reachable state, under an overflow-checked and an unchecked build (same seeds); oracle: no panic, no signal (worker processes supervised), Ok => in-arena range with capacity <= arena capacity + C01/C03 predicates, Err => InsufficientSpace/ReadOnly and allocated/discarded/remaining/free list unchanged. 1/8 of the cases: Engine B programs on a shared sync::Arena with an exhausted cursor (so allocations compete for segments and some fail): no panic in any thread, and a call that returns - in particular one that fails - must not leave a segment that it marked itself linked and marked (the failed call would have changed the free list). Non-trivial (A) = a request that exceeds remaining() or whose end would pass 2^32; (B) = some allocation failed in a run in which threads interfered (a CAS failed)"
+    }
+    fn assumptions() -> Vec<&'static str> {
+        let mut v = <C04A as Prop>::assumptions();
+        v.extend(B_ASSUME.iter().copied());
+        v
+    }
+    fn simplify(c: &CaseC04) -> Vec<CaseC04> {
+        match c {
+            CaseC04::A(c) => simplify_case_a(c).into_iter().map(CaseC04::A).collect(),
+            CaseC04::B(c) => simplify_b(c).into_iter().map(CaseC04::B).collect(),
         }
     }
 }
